@@ -22,7 +22,7 @@ Inductive instr :=
 | IReset                    (* call async_reset *)
 | IRSpa                     (* if self._spa is not None: await self._spa.disconnect() ; self._spa = None *)
 | IRDisc                    (* spa.disconnect() after its event: _disconnected, cancel the SPA tasks, close; then self._spa = None *)
-| IRFin                     (* self._facade = None ; state = IDLE *)
+| IRFin                     (* self._facade = None ; [self._spa_descriptors = None] ; state = IDLE *)
 | ISetId                    (* async_set_spa_info stores address / identifier / name *)
 | ISetDesc                  (* self._spa_descriptors = locator.spas *)
 | IAfterLoc (fc found : bool)  (* async_locate_spas has returned self._spa_descriptors *)
@@ -113,7 +113,7 @@ Fixpoint burst (fuel : nat) (who : slot) (b : bst) (k : list instr) : bst * bend
           | IRSpa => if spa s then go s (IEnter RUNNING_SPA_DISCONNECTED :: IRDisc :: IRFin :: r) else go s (IRFin :: r)
           | IRDisc => burst f who (mkB (upd_objs s (fac s) false (desc s)) true (b_dirty b) (b_died b)) r
           | IRFin =>
-              let s1 := upd_st (upd_objs s false (spa s) (desc s)) IDLE in
+              let s1 := upd_st (upd_objs s false (spa s) (if reset_clears_descriptors_last then false else desc s)) IDLE in
               burst f who (mkB s1 (b_kill_e b) (b_dirty b || spa s1 || desc s1) (b_died b)) r
           | ISetId => go (upd_id s true) r
           | ISetDesc => go (upd_objs s (fac s) (spa s) true) r
